@@ -156,9 +156,59 @@ def r5(rep, prog):
                   "and UserInputLeaf::set_field(None) panics — parse_query(\"+ *\"), (\"a - *\"), (\"title:a +\\t*\")" % (b.id, how, [short(o or "?") for o in ops]), site=site(b, bi))
 
 
+def r6(rep, prog):
+    """every kind of leaf the grammar can produce has a handler that can produce a query"""
+    R = "C16-R6"
+    rep.rule(R, "every leaf kind has a handler: QueryParser::compute_logical_ast_from_leaf_lenient dispatches on the variant of UserInputLeaf (Literal, All, Range, Set, Exists, Regex — read from the enum definition); in the arm of every variant some path builds a LogicalAst (an aggregate of that type, or a call that returns one). An arm that can only report an error means a construct of the documented grammar is parsed and then always refused")
+    fids = [n for n in prog.bodies if n.endswith("QueryParser::compute_logical_ast_from_leaf_lenient")]
+    b = prog.bodies[fids[0]] if fids else None
+    ad = prog.adts.get(QG + "user_input_ast::UserInputLeaf")
+    if not rep.check(b is not None and ad is not None, R, "anchors", "dispatch function and enum found", "cannot establish: compute_logical_ast_from_leaf_lenient or UserInputLeaf not found"):
+        return
+    variants = [v["name"] for v in ad["variants"]]
+    sw = None
+    for bi in b.normal_blocks():
+        t = b.term(bi)
+        if t["k"] == "switch" and op_local(t["on"]) is not None:
+            from ..model import trace_back
+            tr = trace_back(b, op_local(t["on"]))
+            if tr and tr[0] == ("discr",) and tr[-1] == ("param", 2) and len(t["vals"]) >= len(variants) - 1:
+                sw = (bi, t)
+                break
+    if not rep.check(sw is not None, R, "the dispatch on the leaf's variant", "one switch over all variants", "cannot establish: no switch over every UserInputLeaf variant at the top of compute_logical_ast_from_leaf_lenient", site=b.span):
+        return
+    bi, t = sw
+    arms = {int(v): tg for v, tg in t["vals"]}
+    if t.get("else") is not None and not b.blocks[t["else"]]["t"]["k"] == "unreachable":
+        for i in range(len(variants)):
+            arms.setdefault(i, t["else"])
+    LA = "tantivy::query::query_parser::logical_ast::LogicalAst"
+    for i, name in enumerate(variants):
+        tg = arms.get(i)
+        if not rep.check(tg is not None, R, "UserInputLeaf::%s has an arm" % name, "", "UserInputLeaf::%s is not handled by the dispatch of compute_logical_ast_from_leaf_lenient" % name, site=site(b, bi)):
+            continue
+        others = frozenset(x for j, x in arms.items() if j != i and x != tg) | {bi}
+        region = set(b.reachable((tg,), blocked=others)) | {tg}
+        builds = False
+        for rb in region:
+            for st in b.stmts(rb):
+                if st.get("r") == "agg" and st.get("adt") == LA:
+                    builds = True
+            tt = b.term(rb)
+            if tt["k"] in ("call", "tailcall"):
+                f = tt.get("res") or tt.get("f") or ""
+                fb = prog.bodies.get(f)
+                if fb is not None and "LogicalAst" in fb.local_ty_str(0):
+                    builds = True
+        rep.check(builds, R, "the arm of UserInputLeaf::%s can build a query" % name, "a LogicalAst is constructed on some path",
+                  "the arm of UserInputLeaf::%s in QueryParser::compute_logical_ast_from_leaf_lenient never builds a LogicalAst: every `%s` the grammar parses is answered with an error (strict) or dropped with an error "
+                  "(lenient) — `title:*`, the exists query of the documented grammar, gives UnsupportedQuery(\"Range query need to target a specific field.\")" % (name, name.lower()), site=site(b, tg))
+
+
 def run(rep, prog, tier):
     r4(rep, prog)
     r5(rep, prog)
+    r6(rep, prog)
     rep.rule("C16-R1", "panic inventory: every panicking construct (explicit panic/assert/unreachable, unwrap/expect, indexing/slicing and panicking std APIs, arithmetic overflow/division asserts) in bodies of the parser's source files reachable from parse_query / parse_query_lenient / QueryParser entry points equals the frozen, individually reasoned table (keyed by function + kind + count, no line numbers)")
     rep.rule("C16-R2", "recursion: every cycle (SCC) of the parser scope's call graph needs a recorded depth bound; cycles driven by input nesting without a bound are findings")
     rep.not_decided += ["that the parsed query means what the grammar says", "strict / lenient agreement (semantic)", "panics inside tokenizers, Term builders, date/ip parsing called from the parser (outside the scope, trusted)"]
